@@ -209,6 +209,30 @@ func (k c03) Run(c *rt.Ctx) {
 			stmt.HasLim, stmt.Start, stmt.Count = true, r.Intn(3), r.Range(1, 9)
 		}
 		query = stmt.Text(gen.Plain)
+	} else if c.Case%24 == 23 {
+		// wave 15 (C03-aa): a GROUP BY field used by name beside the aggregate call, with groups whose
+		// named value differs and several groups per batch - each group's row is computed from that
+		// group's own value in both modes
+		c.Rec.Inc("group_name_beside_the_aggregate")
+		var ps []refstore.Pair
+		for i, n := 0, r.Range(4, 40); i < n; i++ {
+			pre := []string{"a", "bb", "ccc", "dddd", "e", "ff"}[r.Intn(6)]
+			ps = append(ps, refstore.Pair{K: fmt.Sprintf("%s%02d", pre, i), V: fmt.Sprint(r.Range(1, 30))})
+		}
+		st = &gen.Store{Family: "groupnames", Pairs: refstore.New(ps).Pairs()}
+		k0, v0 := gen.Key(), gen.Value()
+		gdef := gen.Call("substr", k0, gen.Int(0), gen.Bin("-", gen.Call("strlen", k0), gen.Int(2)))
+		gr := func() *gen.Node { return gen.Ref("g", gdef) }
+		agg := []*gen.Node{
+			gen.Bin("+", gen.Call("sum", gen.Call("int", v0)), gen.Call("strlen", gr())),
+			gen.Bin("*", gen.Call("strlen", gr()), gen.Call("count", gen.Int(1))),
+			gen.Bin("+", gen.Call("max", gen.Call("int", v0)), gen.Bin("*", gen.Call("strlen", gr()), gen.Int(100))),
+		}[(c.Case/24)%3]
+		stmt = &gen.Stmt{Kind: "select", Where: gen.Bin(">", k0, gen.Str("")), Fields: []gen.Field{{E: gdef, Alias: "g"}, {E: agg, Alias: "s"}}, GroupBy: []string{"g"}}
+		if (c.Case/72)%2 == 1 {
+			stmt.Fields = append(stmt.Fields, gen.Field{E: gen.Call("upper", gr()), Alias: "u"})
+		}
+		query = stmt.Text(gen.Plain)
 	} else if r.Chance(1, 14) {
 		// float group values that agree in six decimals, or are the two zeros: both modes form
 		// the same groups
